@@ -43,6 +43,12 @@ Structure ==
     Lib1([M(Q(3)) EXCEPT
       !.pins = << Pin1("B", <<Prt(<<Lyr("M1", <<>>, <<Geo("RECT", 1, 2)>>), Lyr("m1", <<>>, <<Geo("RECT", 3, 2)>>), Lyr("MET1", <<>>, <<Geo("RECT", 5, 2)>>)>>)>>) >>,
       !.obs = << Lyr("Boundary", <<>>, <<Geo("RECT", 4, 2)>>), Lyr("met1", <<>>, <<Geo("RECT", 6, 2)>>), Lyr("Met1", <<>>, <<Geo("RECT", 7, 2)>>) >>]),
+    \* vocabulary: layer names the LEF reference uses for layer TYPES and special layers (OVERLAP, MASTERSLICE, CUT, ROUTING,
+    \* OUTLINE) are layer names like any other inside a macro: a shape on them is a shape, not an outline
+    Lib1([M(Q(3)) EXCEPT
+      !.pins = << Pin1("B", <<Prt(<<Lyr("OVERLAP", <<>>, <<Geo("RECT", 1, 2)>>), Lyr("CUT", <<>>, <<Geo("RECT", 3, 2)>>)>>)>>) >>,
+      !.obs = << Lyr("OVERLAP", <<>>, <<Geo("RECT", 4, 2)>>), Lyr("MASTERSLICE", <<>>, <<Geo("POLYGON", 6, 4)>>), Lyr("OUTLINE", <<>>, <<Geo("RECT", 7, 2)>>),
+                 Lyr("ROUTING", <<>>, <<Geo("RECT", 2, 2)>>) >>]),
     [EmptyLib EXCEPT !.macros = << M(Q(2)), [M(Q(4)) EXCEPT !.name = "cell_b", !.obs = <<Lyr("m", <<>>, <<Geo("RECT", 2, 2)>>)>>] >>] }
 
 \* Random macros (NRand; TLC's RandomElement, reproducible under -seed): every number a random decimal with 0..7 fractional
